@@ -71,11 +71,17 @@ def run_job(job: dict) -> dict:
 
 
 def plan(tier: str, seed: int) -> dict:
+    # one single-case phase per gated construct: the table part is exhaustive, and the
+    # construct is a parameter (not a draw), so a replay addresses it exactly
+    table = [{"name": "table", "n_cases": 1, "cases_per_job": 1,
+              "params": {"mode": "table", "kind": k}} for k in P.ALL_KINDS]
     if tier == "quick":
-        return {"n_cases": 3200, "cases_per_job": 25, "budget_s": 100, "min_budget": 60,
-                "params": {"max_ops": 14}}
-    return {"n_cases": 200000, "cases_per_job": 50, "budget_s": 1500, "min_budget": 400,
-            "params": {"max_ops": 30}}
+        return {"budget_s": 100, "min_budget": 60, "phases": [
+            {"name": "histories", "n_cases": 3200, "cases_per_job": 25,
+             "params": {"max_ops": 14}}] + table}
+    return {"budget_s": 1500, "min_budget": 400, "phases": [
+        {"name": "histories", "n_cases": 200000, "cases_per_job": 50,
+         "params": {"max_ops": 30}}] + table}
 
 
 # ------------------------------------------------------------------ history generation
@@ -140,7 +146,7 @@ class Run:
         self.depth = 0
         self.crossing = 0
         self.had_exc_exit = False
-        n = ch.rng_int(2, 5, "n_probes")
+        n = 0 if params.get("no_programs") else ch.rng_int(2, 5, "n_probes")
         self.progs = []
         for i in range(n):
             # related programs (same gate family as the first one) exercise state that
@@ -290,7 +296,32 @@ class Run:
             self.crossing = 0
 
 
+def run_table_case(ch: Choices, params: dict) -> dict:
+    """Exhaustive part: one gated construct in EVERY context, checked and compiled in both gate states, the
+    state being set through the context managers."""
+    run = Run(ch, {"no_programs": True})
+    kind = params["kind"]
+    run.progs = [{"kind": kind, "ctx": ctx, "fault": None, "mod": None, "seen": set()}
+                 for ctx in P.CONTEXTS]
+    n = len(run.progs)
+    ops = [["with", False, True, [["check", i, False, False] for i in range(n)]],
+           ["with", True, True, [["check", i, False, c] for i in range(n) for c in (False, True)]],
+           ["with", False, True, [["check", i, False, False] for i in range(n)]]]
+    try:
+        run.exec_block(ops)
+    except Exception as e:  # noqa: BLE001
+        run.violation("CRASH", {"where": "table"}, "no exception", repr(e))
+    key = "table/" + kind
+    return {"violations": run.viol, "digest": run.log.digest(), "steps": run.steps,
+            "faults": run.faults, "probes": run.probes, "keys": [key], "nontrivial_keys": [key],
+            "extra": {"table_pairs": n},
+            "trace": {"programs": [pname(p) for p in run.progs], "history": render_ops(ops),
+                      "events": run.log.events[-20:]}}
+
+
 def run_case(ch: Choices, params: dict) -> dict:
+    if params.get("mode") == "table":
+        return run_table_case(ch, params)
     run = Run(ch, params)
     # initial gate state: drawn
     if ch.draw(2, "initial_gate"):
@@ -330,6 +361,7 @@ def coverage(agg, plan: dict) -> dict:
     return {
         "distinct_nontrivial": len(agg.nontrivial_keys),
         "distinct_histories": len(agg.keys),
+        "table_phase": "exhaustive: every gated construct (%d) x every context (%d), check and compile, gate closed / open / closed again through the context managers: %d (construct, context) pairs this run" % (len(P.ALL_KINDS) - 1, len(P.CONTEXTS), agg.extra.get("table_pairs", 0)),
         "rule": "one case = one seeded history (op tree + 2-5 probe programs) run in a fresh fork; distinct = sha256 of (rendered op tree, probe list); non-trivial = contains an exceptional with-exit or with-nesting >= 2 AND at least one check of a gated program",
         "components_real": ["guppylang_internals.experimental (flag, context managers, gate functions)",
                             "guppylang.experimental re-exports", "CompilationEngine.check/compile and all gate sites (cfg builder, expr checker, func checker, tys/builtin)"],
